@@ -451,6 +451,57 @@ def rule_N3_flag(ctx):
                       ctx.where(sm, i))
 
 
+def flag_arm_keeps_array(ctx, rule):
+    """An array-valued noise setting is saved as the string flag
+    'data._<name>' plus the array among the data sets; on loading (and in
+    copy / select) the data sets are restored first and the flag is then
+    handed to the setter.  Given the flag, the setter may therefore not
+    touch the stored array: every store to / deletion of `data['_' + name]`
+    in `_set_nf_re` belongs to the arm for numeric values."""
+    sm = ctx.repo.mod(SURV)
+    fn = sm.method('Survey', '_set_nf_re')
+    ps = au.params(fn)
+    name, value = ps[1], ps[2]
+    from ..core.canon import ct
+    n = 0
+    for st in ast.walk(fn):
+        tgs = []
+        if isinstance(st, ast.Assign):
+            tgs = st.targets
+        elif isinstance(st, ast.AugAssign):
+            tgs = [st.target]
+        elif isinstance(st, ast.Delete):
+            tgs = st.targets
+        elif isinstance(st, ast.Expr) and isinstance(st.value, ast.Call) \
+                and isinstance(st.value.func, ast.Attribute) and \
+                st.value.func.attr in ('pop', 'drop_vars', 'drop'):
+            tgs = [st.value]
+        for t in tgs:
+            txt = ast.unparse(t)
+            if not (('.data' in txt or '._data' in txt) and name in txt and
+                    'attrs' not in txt):
+                continue
+            n += 1
+            ok = False
+            for t_, pol in au.guards_of(st, fn):
+                if not pol:
+                    continue
+                cj = t_.values if isinstance(t_, ast.BoolOp) and isinstance(
+                    t_.op, ast.And) else [t_]
+                if any(ast.unparse(c_).replace(' ', '') == ct(
+                        f'not isinstance({value}, str)') for c_ in cj):
+                    ok = True
+            ctx.check(rule, f'Survey._set_nf_re `{au.stext(st)[:60]}`', ok,
+                      f'the stored array of the noise setting is '
+                      f'{"deleted" if isinstance(st, ast.Delete) else "written"}'
+                      ' also when the setter gets the flag (a string) / None: '
+                      'from_dict, copy and select restore the array and then '
+                      'pass the flag, so the restored array is lost and the '
+                      'loaded survey cannot give its noise floor / relative '
+                      'error / standard deviation', ctx.where(sm, st))
+    ctx.need(n >= 1, 'no store of the noise array in _set_nf_re')
+
+
 def rule_N3_scalar(ctx):
     """A noise parameter with exactly one entry (a scalar, or an array of the
     documented broadcastable shapes for a survey with one source / receiver /
@@ -668,3 +719,4 @@ def run(ctx):
     # saved and re-loaded data keep their labels (rule of C17, shared)
     from .c17 import h5_order
     h5_order(ctx, 'C13.N4.h5order')
+    flag_arm_keeps_array(ctx, 'C13.N3.flag')
